@@ -34,6 +34,8 @@ func init() {
 			{ID: "C12.S6", Alias: "C05.R1"},
 			{ID: "C12.S7", Alias: "C06.R5"},
 			{ID: "C12.S8", Alias: "C03.R4"},
+			{ID: "C12.S9", Alias: "C04.W2"},
+			{ID: "C12.S10", Alias: "C01.R4"},
 		},
 	})
 }
@@ -147,32 +149,13 @@ func c12r2(c *an.Ctx) {
 					callee = o
 				}
 				name := an.ShortFunc(callee)
-				why, ok := witness[name]
-				c.Check(ok, fmt.Sprintf("%s | go %s has a termination witness", an.ShortFunc(fn), name), c.At(in), why, "a goroutine is started whose termination is not established by any reviewed witness: closing may leave it behind")
-				if name == "(*Tracker).track" {
-					// wg.Add(1) precedes the go statement
-					okAdd := false
-					an.Instrs(fn, func(i2 ssa.Instruction) {
-						if call, isCall := i2.(*ssa.Call); isCall {
-							if obj := an.CalleeObj(call.Common()); obj != nil && obj.FullName() == "(*sync.WaitGroup).Add" && an.InstrDominates(i2, in) {
-								okAdd = true
-							}
-						}
-					})
-					c.Check(okAdd, "(*Tracker).Run | wg.Add before go", c.At(in), "", "the goroutine is started before it is counted: Wait can return while it is still starting")
-					okDone := false
-					for _, ret := range an.Returns(callee) {
-						_ = ret
-					}
-					an.Instrs(callee, func(i2 ssa.Instruction) {
-						if ci, isCall := i2.(ssa.CallInstruction); isCall {
-							if obj := an.CalleeObj(ci.Common()); obj != nil && obj.FullName() == "(*sync.WaitGroup).Done" {
-								okDone = true
-							}
-						}
-					})
-					c.Check(okDone, "(*Tracker).track | wg.Done after the callback", c.P.Pos(callee.Pos()), "", "tracked goroutines never report completion: Serve's Wait never returns")
+				// structural witness: counted in a WaitGroup before the go statement, Done on every path of the target
+				if wgWitness(fn, in, callee) {
+					c.Ok(fmt.Sprintf("%s | go %s has a termination witness", an.ShortFunc(fn), witnessName(callee)), c.At(in), "wg.Add before go, wg.Done on every path of the goroutine; the owner waits on the WaitGroup (C12.R3)")
+					return
 				}
+				why, ok := witness[name]
+				c.Check(ok, fmt.Sprintf("%s | go %s has a termination witness", an.ShortFunc(fn), witnessName(callee)), c.At(in), why, "a goroutine is started whose termination is not established by any reviewed witness (a WaitGroup the owner waits on, or one of the reviewed connection/listener goroutines): closing may leave it behind")
 			})
 		}
 	}
@@ -411,4 +394,86 @@ func fieldWritten(in ssa.Instruction, f *types.Var) bool {
 		}
 	}
 	return false
+}
+
+func witnessName(callee *ssa.Function) string {
+	if callee.Parent() != nil {
+		return "<closure in " + an.ShortFunc(callee.Parent()) + ">"
+	}
+	return an.ShortFunc(callee)
+}
+
+// wgWitness: the spawner calls WaitGroup.Add before the go statement and the
+// goroutine calls WaitGroup.Done on every path (directly, deferred, or in a
+// function of the same package that it always calls).
+func wgWitness(spawner *ssa.Function, goInstr ssa.Instruction, target *ssa.Function) bool {
+	isWG := func(cc *ssa.CallCommon, name string) bool {
+		obj := an.CalleeObj(cc)
+		return obj != nil && obj.FullName() == "(*sync.WaitGroup)."+name
+	}
+	added := false
+	an.Instrs(spawner, func(in ssa.Instruction) {
+		if call, ok := in.(*ssa.Call); ok && isWG(call.Common(), "Add") && an.InstrDominates(in, goInstr) {
+			added = true
+		}
+	})
+	if !added {
+		return false
+	}
+	var doneOnAllPaths func(fn *ssa.Function, depth int) bool
+	doneOnAllPaths = func(fn *ssa.Function, depth int) bool {
+		if depth > 2 || len(fn.Blocks) == 0 {
+			return false
+		}
+		var marks []ssa.Instruction
+		deferred := false
+		an.Instrs(fn, func(in ssa.Instruction) {
+			ci, ok := in.(ssa.CallInstruction)
+			if !ok {
+				return
+			}
+			if _, isGo := in.(*ssa.Go); isGo {
+				return
+			}
+			hit := isWG(ci.Common(), "Done")
+			if !hit {
+				if callee := ci.Common().StaticCallee(); callee != nil && callee != fn && doneOnAllPaths(callee, depth+1) {
+					hit = true
+				}
+			}
+			if !hit {
+				return
+			}
+			if _, isDefer := in.(*ssa.Defer); isDefer {
+				if in.Block() == fn.Blocks[0] {
+					deferred = true
+				}
+				return
+			}
+			marks = append(marks, in)
+		})
+		if deferred {
+			return true
+		}
+		rets := an.Returns(fn)
+		if len(rets) == 0 {
+			return false
+		}
+		for _, ret := range rets {
+			if !retReachable(fn, ret) {
+				continue
+			}
+			ok := false
+			for _, m := range marks {
+				if an.InstrDominates(m, ret) {
+					ok = true
+				}
+			}
+			if !ok {
+				return false
+			}
+		}
+		return true
+	}
+	return doneOnAllPaths(target, 0)
 }
